@@ -357,12 +357,12 @@ def run(js, strategy, extra, options=None):
 
         def _on_alarm(signum, frame):
             raise _Timeout()
-        old_alarm = signal.signal(signal.SIGALRM, _on_alarm)
+        old_alarm = signal.signal(signal.SIGVTALRM, _on_alarm)
         with Rec() as rec, warnings.catch_warnings(), contextlib.redirect_stdout(io.StringIO()):
             warnings.simplefilter("ignore")
             s = Scenario(copy.deepcopy(js), tmp)
             try:
-                signal.alarm(TIME_LIMIT)
+                signal.setitimer(signal.ITIMER_VIRTUAL, TIME_LIMIT)   # CPU time, independent of machine load
                 s.run(strategy, opts)
                 err = None
             except _Timeout:
@@ -370,8 +370,8 @@ def run(js, strategy, extra, options=None):
             except Exception as e:  # noqa
                 err = repr(e)
             finally:
-                signal.alarm(0)
-                signal.signal(signal.SIGALRM, old_alarm)
+                signal.setitimer(signal.ITIMER_VIRTUAL, 0)
+                signal.signal(signal.SIGVTALRM, old_alarm)
         if err:
             return {"error": err}
         n = s.step_i
